@@ -33,7 +33,7 @@ func NewCursor(stage string, worker int) *Cursor {
 	c := &Cursor{}
 	dir := os.Getenv("VERIF_RUNDIR")
 	if dir == "" {
-		dir = filepath.Join(Root(), "run", "misc")
+		dir = filepath.Join(Work(), "run", "misc")
 	}
 	_ = os.MkdirAll(dir, 0o755)
 	path := filepath.Join(dir, fmt.Sprintf("%s.cursor.%d", stage, worker))
@@ -93,7 +93,7 @@ func (r *Run) Watchdog(limit time.Duration, mk func(cur string) any) {
 				}
 				dir := os.Getenv("VERIF_RUNDIR")
 				if dir == "" {
-					dir = filepath.Join(Root(), "run", "misc")
+					dir = filepath.Join(Work(), "run", "misc")
 				}
 				body := map[string]any{"property": r.ID, "stage": r.Stage, "tier": r.Tier, "seed": r.Seed,
 					"sig": "hang:" + Q(cur), "desc": fmt.Sprintf("a call did not return within %v", limit), "case": mk(cur)}
